@@ -40,7 +40,7 @@ def main():
         return 2
     # demo files: untracked *_test.go in the agent's worktree (outside _seeded)
     rc, out = sh(["git", "-C", wt, "status", "--porcelain"])
-    demos = [l[3:].strip() for l in out.splitlines() if l.startswith("??") and l.strip().endswith("_test.go") and "_seeded" not in l]
+    demos = [l[3:].strip() for l in out.splitlines() if l.startswith("??") and l.strip().endswith("_test.go") and not l[3:].strip().startswith("_seeded/")]
     if not demos:
         print("no demo test file found in", wt)
         return 2
